@@ -14,8 +14,7 @@ Inductive xcell :=
 | XDate (y m d hh mm ss : Z)             (* XL_CELL_DATE, xldate_as_tuple; (0,0,0,h,m,s) for a pure time *)
 | XNone.                                 (* never written: XL_CELL_EMPTY *)
 
-(* "%0*d" for non-negative numbers *)
-Definition zpad (w : nat) (n : Z) : text := let t := nat_text n in repeat 48%N (w - length t) ++ t.
+(* zero padded numbers ("%0*d"): zpad in Spec/FieldSpec.v *)
 Definition COLON : N := 58. Definition DASH : N := 45.
 Definition render_time (hh mm ss : Z) : text := zpad 2 hh ++ COLON :: zpad 2 mm ++ COLON :: zpad 2 ss.
 Definition render_date (y m d : Z) : text := zpad 4 y ++ DASH :: zpad 2 m ++ DASH :: zpad 2 d.
